@@ -11,6 +11,16 @@ CHECKS = {
    "Random search over the product of backup options and source trees (names stressing the order, file sizes placed around the small-file cap and block multiples, every mode bit, pre-/post-epoch and sub-second mtimes, named owners), with a byte-exact snapshot oracle that shares no code with conserve. Exploration is the honest level: the input space is unbounded and an exact inverse exists, so a round-trip oracle decides each generated case completely.",
    "Runs as root on tmpfs; owners restricted to ids that have names on this machine; trees <= 40 nodes, files <= 8 KiB; generated cases only, no absence claim.",
    "DESIGN.md 5 C01"),
+ "C11": ("exploration",
+   "exhaustive enumeration of path pairs/triples/strings against a reference order + property-based tree walks (proptest)",
+   "The comparison, equality, antisymmetry and transitivity clauses are decided by complete enumeration of a small-alphabet universe (all 21.9M ordered pairs of depth<=4 paths, all 17.4M triples at depth<=3, all strings with bad components for is_valid) against a reference comparator written from doc/format.md; the 'walk, listing and index emit strictly increasing order' clause by generated trees whose walk, listing and independently decoded hunks are compared with the model. Enumeration is exhaustive only inside the stated universe; beyond it random paths are used, hence exploration.",
+   "Reference comparator is trusted (byte-wise, from the documentation). Release-like build (debug assertions off).",
+   "DESIGN.md 5 C11"),
+ "C12": ("exploration",
+   "exhaustive pair enumeration of is_prefix_of against byte-wise containment + property-based subtree list/restore on generated trees (metamorphic: subtree result == filtered full result)",
+   "Every ordered pair of a depth<=3 universe with multi-byte and mutually-extending names is checked against whole-component containment; generated trees are backed up and every entry (plus absent paths) is used as the subtree for listing, every directory for restoring, compared with the filtered full listing / full restore.",
+   "Containment oracle trusted; restoring a single nested file by path is outside the property and not exercised.",
+   "DESIGN.md 5 C12"),
 }
 
 NOT_BUILT_REASON = "check not built yet in this session (planned, see DESIGN.md section 5); not claimed until its command exists and is silent on the unchanged tree"
